@@ -278,7 +278,71 @@ func (p *Path) guardViolation(th *Thread, what string, mu string, write bool) {
 	panic(pathEnd{endStop, "lockset violation"})
 }
 
+// ---------- Eraser-style lockset race monitor over all heap cells (opt-in: zz.RaceMonitor) ----------
+
+type cellState struct {
+	state   int // 1 exclusive, 2 shared (read only since shared), 3 shared-modified
+	owner   int
+	lockset map[string]bool
+}
+
+func (p *Path) heldSet(th *Thread, write bool) map[string]bool {
+	out := map[string]bool{}
+	for k, l := range p.locks {
+		if l.writer == th.id || (!write && l.readers[th.id] > 0) {
+			out[k] = true
+		}
+	}
+	return out
+}
+
+func (p *Path) eraserAccess(th *Thread, key, what string, write bool) {
+	if p.inHarnessCode(th) {
+		return
+	}
+	if p.eraserCells == nil {
+		p.eraserCells = map[string]*cellState{}
+	}
+	c := p.eraserCells[key]
+	if c == nil {
+		p.eraserCells[key] = &cellState{state: 1, owner: th.id}
+		return
+	}
+	switch c.state {
+	case 1:
+		if c.owner == th.id {
+			return
+		}
+		c.lockset = p.heldSet(th, write)
+		c.state = 2
+		if write {
+			c.state = 3
+		}
+	default:
+		held := p.heldSet(th, write)
+		for k := range c.lockset {
+			if !held[k] {
+				delete(c.lockset, k)
+			}
+		}
+		if write {
+			c.state = 3
+		}
+	}
+	if c.state == 3 && len(c.lockset) == 0 {
+		mode := "read"
+		if write {
+			mode = "write"
+		}
+		p.violationNow("race", fmt.Sprintf("%s of %s shared between goroutines with no common lock held (a write under a read lock does not count)", mode, what))
+		panic(pathEnd{endStop, "lockset violation"})
+	}
+}
+
 func (p *Path) accessCheck(th *Thread, ptr PtrV, write bool) {
+	if p.eraser && len(p.threads) > 1 {
+		p.eraserAccess(th, "p:"+ptr.key(), "memory cell "+ptr.key(), write)
+	}
 	if len(p.guards) == 0 {
 		return
 	}
@@ -295,6 +359,9 @@ func (p *Path) accessCheck(th *Thread, ptr PtrV, write bool) {
 }
 
 func (p *Path) mapAccessCheck(th *Thread, m MapV, write bool) {
+	if p.eraser && len(p.threads) > 1 && m.id != 0 {
+		p.eraserAccess(th, fmt.Sprintf("m:%d", m.id), fmt.Sprintf("map (object %d)", m.id), write)
+	}
 	if len(p.guards) == 0 {
 		return
 	}
